@@ -2,7 +2,8 @@
 C04 statistics slice, lemmas part d:
   * the closed form depends on the string rule only through the strings that occur (`build_congr`);
   * FastParseFloat and strconv.ParseFloat compute the SAME value on every scanned numeral under exact arithmetic
-    (`valFast_exact`); they differ only in which strings they accept (`parseFast_eq_parseStd_iff`);
+    (`valFast_exact`); the fixed FastParseFloat accepts the same strings (`parseFast_eq_parseStd`), the old one also
+    accepted the digit-less forms (`parse_differ_of_no_digit`);
   * the group-by bucket: number of records and the Sum cell in closed form, for every list (`foldRB_sum`).
 Core Lean only.
 -/
@@ -117,8 +118,15 @@ theorem valFast_exact (d : Dec) : valFast exact d = valExact d := by
         simp only [pow10f, hneg, if_false, exact_apply, Int.neg_neg, Int.toNat_natCast]
         grind
 
-theorem parseFast_exact (s : Str) : parseFast exact s = (scanDec s).map valExact := by
-  unfold parseFast
+theorem parseFastOld_exact (s : Str) : parseFastOld exact s = (scanDec s).map valExact := by
+  unfold parseFastOld
+  cases scanDec s with
+  | none => rfl
+  | some d => simp [valFast_exact]
+
+/-- the FIXED FastParseFloat and strconv.ParseFloat (decimal alphabet) agree on EVERY string under exact arithmetic -/
+theorem parseFast_eq_parseStd (s : Str) : parseFast exact s = parseStd exact s := by
+  unfold parseFast parseStd
   cases scanDec s with
   | none => rfl
   | some d => simp [valFast_exact]
@@ -126,9 +134,9 @@ theorem parseFast_exact (s : Str) : parseFast exact s = (scanDec s).map valExact
 /-- the numerals proper: at least one mantissa digit -/
 def HasMantissaDigit (s : Str) : Prop := ∀ d, scanDec s = some d → ¬ (d.ip = [] ∧ d.fp = [])
 
-/-- the two rules agree on a string exactly when it is not a digit-less form ("-", "+", ".", "e5", …) -/
-theorem parseFast_eq_parseStd (s : Str) (h : HasMantissaDigit s) : parseFast exact s = parseStd exact s := by
-  rw [parseFast_exact]
+/-- before the fix the two rules agreed on a string exactly when it was not a digit-less form ("-", "+", ".", "e5", …) -/
+theorem parseFastOld_eq_parseStd (s : Str) (h : HasMantissaDigit s) : parseFastOld exact s = parseStd exact s := by
+  rw [parseFastOld_exact]
   unfold parseStd
   cases hs : scanDec s with
   | none => rfl
@@ -136,10 +144,11 @@ theorem parseFast_eq_parseStd (s : Str) (h : HasMantissaDigit s) : parseFast exa
     have := h d hs
     simp [this]
 
-/-- … and on a digit-less scanned form FastParseFloat says "number" where strconv.ParseFloat says "not a number" -/
+/-- … and on a digit-less scanned form the old FastParseFloat said "number" where strconv.ParseFloat (and the fixed
+FastParseFloat) says "not a number" -/
 theorem parse_differ_of_no_digit (s : Str) (d : Dec) (hs : scanDec s = some d) (h0 : d.ip = [] ∧ d.fp = []) :
-    (parseFast exact s).isSome = true ∧ parseStd exact s = none := by
-  simp [parseFast, parseStd, hs, h0]
+    (parseFastOld exact s).isSome = true ∧ parseStd exact s = none ∧ parseFast exact s = none := by
+  simp [parseFastOld, parseFast, parseStd, hs, h0]
 
 /-! ### group-by bucket: records and Sum cell in closed form -/
 
